@@ -25,10 +25,20 @@ def main():
                              stdout=subprocess.PIPE, check=True, text=True).stdout
     cmp_res = json.loads(cmp_out)
     viol, nontriv = monitors.run_monitors(obs, ops)
+    # which histories left the configuration domain of DESIGN section 5 (Model/Domain.v, evaluated by the model runner), and where
+    outdom = {}
+    nh = set()
+    with open(mobs) as f:
+        for line in f:
+            o = json.loads(line)
+            nh.add(o["h"])
+            if o.get("dom") is False and o["h"] not in outdom:
+                outdom[o["h"]] = o["i"]
     # lines per history, to attribute op kinds
     res = {"k": k, "seed": seed, "ops": cmp_res["ops"], "histories": cmp_res["histories"],
            "sections": cmp_res["sections"], "mismatches": cmp_res["mismatches"],
            "violations": viol[:200], "n_violations": len(viol), "nontrivial": nontriv,
+           "out_of_domain": outdom, "in_domain": len(nh) - len(outdom),
            "stats": json.load(open(stats))}
     json.dump(res, open(os.path.join(d, "shard.%d.json" % k), "w"))
     os.remove(obs)
